@@ -4,9 +4,12 @@ package actor
 
 import (
 	"context"
+	_ "embed"
+	"errors"
 	"fmt"
 	"runtime"
 	"sort"
+	"strings"
 	"sync"
 	"sync/atomic"
 	"testing"
@@ -15,6 +18,7 @@ import (
 
 	"pgregory.net/rapid"
 
+	gerrors "github.com/tochemey/goakt/v4/errors"
 	"github.com/tochemey/goakt/v4/internal/vfe3"
 	"github.com/tochemey/goakt/v4/internal/vfkit"
 	"github.com/tochemey/goakt/v4/internal/vfsched"
@@ -33,14 +37,14 @@ import (
 // caller logs what its Ask returned. The oracle is evaluated over that history.
 
 const (
-	c15FormPIDAsk = iota // sender.Ask(ctx, to, msg, timeout)
-	c15FormPkgAsk        // actor.Ask(ctx, to, msg, timeout)
-	c15FormSendSync      // sender.SendSync(ctx, name, msg, timeout)
-	c15FormPkgBatch      // actor.BatchAsk(ctx, to, timeout, msgs...)
-	c15FormPIDBatch      // sender.BatchAsk(ctx, to, msgs, timeout)
-	c15FormCtxAsk        // (inside Receive) rctx.Ask(to, msg, timeout)
-	c15FormCtxSendSync   // (inside Receive) rctx.SendSync(name, msg, timeout)
-	c15FormCtxBatch      // (inside Receive) rctx.BatchAsk(to, msgs, timeout)
+	c15FormPIDAsk      = iota // sender.Ask(ctx, to, msg, timeout)
+	c15FormPkgAsk             // actor.Ask(ctx, to, msg, timeout)
+	c15FormSendSync           // sender.SendSync(ctx, name, msg, timeout)
+	c15FormPkgBatch           // actor.BatchAsk(ctx, to, timeout, msgs...)
+	c15FormPIDBatch           // sender.BatchAsk(ctx, to, msgs, timeout)
+	c15FormCtxAsk             // (inside Receive) rctx.Ask(to, msg, timeout)
+	c15FormCtxSendSync        // (inside Receive) rctx.SendSync(name, msg, timeout)
+	c15FormCtxBatch           // (inside Receive) rctx.BatchAsk(to, msgs, timeout)
 	c15FormCount
 )
 
@@ -60,6 +64,7 @@ var c15ScriptNames = [...]string{"now", "late", "never", "twice", "goroutine", "
 
 const (
 	c15Generous      = 20 * time.Second // "generous" caller timeout
+	c15Medium        = 1 * time.Second  // see c15Run.medium
 	c15InTimeMargin  = 10 * time.Second // a reply given later than this after the Ask started is not judged
 	c15ReturnCap     = 90 * time.Second
 	c15HandledCap    = 20 * time.Second
@@ -125,7 +130,6 @@ type c15Handled struct {
 	ch              chan any
 	closedOnArrival bool
 	closedAtRespond bool // reply path already marked closed when the first Response was about to be made
-	neutralized     bool
 	responded       int
 	resps           [][2]int64 // logical [start,end] of every Response call
 	respondedTs     int64
@@ -134,12 +138,12 @@ type c15Handled struct {
 }
 
 type c15Run struct {
-	clock      atomic.Int64
-	mu         sync.Mutex
-	handled    map[uint64]*c15Handled
-	handledN   atomic.Int64
-	puts       []c15Put // reply channels going back to the pool (hook in putResponseChannel)
-	neutralize bool // finding c15FpStaleClose is listed: re-open the reply path so that the search goes on
+	clock    atomic.Int64
+	mu       sync.Mutex
+	handled  map[uint64]*c15Handled
+	handledN atomic.Int64
+	puts     []c15Put // reply channels going back to the pool (hook in putResponseChannel)
+	medium   bool     // finding c15FpStaleClose is listed: generous asks that cannot be cancelled wait c15Medium only
 }
 
 func (r *c15Run) tick() int64 { return r.clock.Add(1) }
@@ -170,6 +174,10 @@ func (c15Responder) PreStart(*Context) error { return nil }
 func (c15Responder) PostStop(*Context) error { return nil }
 
 func (c15Responder) Receive(ctx *ReceiveContext) {
+	if b, ok := ctx.Message().(*c15Barrier); ok {
+		close(b.done)
+		return
+	}
 	m, ok := ctx.Message().(*c15Req)
 	if !ok {
 		return
@@ -184,10 +192,7 @@ func (c15Responder) Receive(ctx *ReceiveContext) {
 			// the caller of a generous Ask is still waiting, yet its reply path is closed:
 			// Response is going to drop the reply
 			h.closedAtRespond = true
-			if run.neutralize {
-				c15RawClosed(ctx).Store(false)
-				h.neutralized = true
-			} else if m.cancel != nil {
+			if m.cancel != nil {
 				defer m.cancel() // do not wait 20 s for a reply that was observably dropped
 			}
 		}
@@ -245,6 +250,8 @@ func c15Sleep(d time.Duration) {
 	}
 }
 
+type c15Barrier struct{ done chan struct{} }
+
 type c15Nop struct{}
 
 func (c15Nop) PreStart(*Context) error { return nil }
@@ -263,6 +270,7 @@ type c15AskRec struct {
 	replies    []any // per item (nil when the call failed)
 	err        error
 	nReplies   int // batch: number of values found on the returned channel
+	medium     bool
 }
 
 type c15Go struct {
@@ -306,12 +314,25 @@ func (e *c15Env) doAsk(asker, idx int, a c15AskSpec, rctx *ReceiveContext) *c15A
 	rec := &c15AskRec{asker: asker, idx: idx, spec: a}
 	to := e.responders[a.Resp]
 	timeout := c15Generous
+	// A generous ask whose reply path is observably closed when its responder is about to
+	// reply is released at once through its context instead of sitting out 20 s. That is
+	// only possible (and only safe) for a single ask made with a context of its own: a
+	// batch shares one context among its asks, and an ask made from inside an actor
+	// runs on a non-cancellable context.
+	cancellable := !a.Short && rctx == nil && !c15IsBatch(a.Form)
 	if a.Short {
 		timeout = time.Duration(a.TimeoutUS) * time.Microsecond
+	} else if !cancellable && e.run.medium {
+		// While the stale-close finding is listed, a generous ask that cannot be released
+		// would sit out 20 s each time the finding strikes. It waits 1 s instead; a
+		// failure of such a call is then judged only when it has the shape of the listed
+		// finding (excluded) and is otherwise inconclusive, never a violation.
+		timeout = c15Medium
+		rec.medium = true
 	}
 	cctx := context.Background()
 	var cancel context.CancelFunc
-	if !a.Short && rctx == nil {
+	if cancellable {
 		cctx, cancel = context.WithCancel(cctx)
 		defer cancel()
 	}
@@ -528,7 +549,7 @@ type c15ItemRef struct {
 
 func c15Exec(x *vfkit.X, c c15Case) {
 	ctx := context.Background()
-	run := &c15Run{handled: map[uint64]*c15Handled{}, neutralize: x.Known(c15FpStaleClose)}
+	run := &c15Run{handled: map[uint64]*c15Handled{}, medium: x.Known(c15FpStaleClose) && c.CtxDepth >= 0}
 	env := &c15Env{run: run, sender: c15Sender}
 	c15Cur.Store(run)
 	defer c15Cur.Store(nil)
@@ -598,36 +619,29 @@ func c15Exec(x *vfkit.X, c c15Case) {
 		}
 	}
 	vfsched.SetNoise(0, 0, 0)
-	// every request that was sent is handled eventually (its caller may be long gone)
-	sent := 0
-	for _, r := range recs {
-		sent += c15Sent(r)
-	}
-	deadline := time.Now().Add(c15HandledCap)
-	for run.handledN.Load() < int64(sent) {
-		if time.Now().After(deadline) {
-			break
+	// every request that was sent is handled eventually (its caller may be long gone):
+	// a barrier message behind them in every responder's (FIFO) mailbox
+	quiet := true
+	for _, p := range env.responders {
+		done := make(chan struct{})
+		if err := Tell(ctx, p, &c15Barrier{done: done}); err != nil {
+			quiet = false
+			continue
 		}
-		time.Sleep(200 * time.Microsecond)
+		select {
+		case <-done:
+		case <-time.After(c15HandledCap):
+			quiet = false
+		}
 	}
-	quiet := run.handledN.Load() >= int64(sent)
 	if !quiet {
 		x.Class("inconclusive_not_all_handled")
+		return
 	}
-	c15Judge(x, c, run, recs, quiet)
+	c15Judge(x, c, run, recs)
 }
 
-// c15Sent = number of requests of the call that were certainly enqueued: all of
-// them on success; on failure of a batch the calls stop at the first failing one,
-// so only a prefix was sent (the handled map tells how long it was).
-func c15Sent(r *c15AskRec) int {
-	if r.err == nil || len(r.tokens) == 1 {
-		return len(r.tokens)
-	}
-	return 0 // unknown prefix: do not wait for it
-}
-
-func c15Judge(x *vfkit.X, c c15Case, run *c15Run, recs []*c15AskRec, quiet bool) {
+func c15Judge(x *vfkit.X, c c15Case, run *c15Run, recs []*c15AskRec) {
 	sort.Slice(recs, func(i, j int) bool { return recs[i].startTs < recs[j].startTs })
 	run.mu.Lock()
 	handled := make(map[uint64]*c15Handled, len(run.handled))
@@ -783,7 +797,10 @@ func c15Judge(x *vfkit.X, c c15Case, run *c15Run, recs []*c15AskRec, quiet bool)
 				if oa, ok := owner[rep.Token]; ok {
 					detail = "the reply belongs to: " + describe(oa.rec)
 					ha, hb := handled[rep.Token], handled[tok]
-					if oa.rec.err != nil && ha != nil && (hb == nil || ha.ch == hb.ch) && pooledDuringResponse(ha) {
+					// the listed stale-send shape: the owner's caller had given up (or had itself
+					// been handed a foreign reply) and pooled the channel while the owner's
+					// Response call was between its CAS and its send
+					if (oa.rec.err != nil || c15GotForeign(oa.rec)) && ha != nil && (hb == nil || ha.ch == hb.ch) && pooledDuringResponse(ha) {
 						fp = c15FpStaleSend
 					}
 				}
@@ -800,7 +817,13 @@ func c15Judge(x *vfkit.X, c c15Case, run *c15Run, recs []*c15AskRec, quiet bool)
 		if r.spec.Short {
 			continue // a short timeout may or may not beat the reply
 		}
-		// generous timeout: every script of a generous ask replies; which request failed?
+		if !errors.Is(r.err, gerrors.ErrRequestTimeout) {
+			dump()
+			x.Failf("ask-unexpected-error", "an Ask to a running actor failed with %v: %s", r.err, describe(r))
+		}
+		// generous timeout: every script of a generous ask replies. A batch stops at its
+		// first failing ask, so the request that failed is the last one that was sent
+		// (all responders have passed the barrier: handled == sent).
 		var tok uint64
 		idx := -1
 		for i, t2 := range r.tokens {
@@ -831,30 +854,29 @@ func c15Judge(x *vfkit.X, c c15Case, run *c15Run, recs []*c15AskRec, quiet bool)
 			x.Class("excluded_known_stale_close")
 			continue
 		}
+		if r.medium {
+			x.Class("inconclusive_medium_timeout")
+			continue
+		}
 		dump()
 		x.Failf(fp, "a reply given %v after the Ask started (timeout %v, returned after %v) was lost: %s%s", h.respondedWall.Sub(r.startWall), c15Generous, r.retWall.Sub(r.startWall), describe(r), detail)
 	}
-	// reply paths the harness re-opened (only while c15FpStaleClose is listed) must be
-	// explained by that finding
-	for tok, h := range handled {
-		if !h.neutralized {
-			continue
-		}
-		o, ok := owner[tok]
-		if !ok {
-			continue
-		}
-		if staleCloser(tok, o.rec) != nil {
-			x.Class("excluded_known_stale_close")
-			continue
-		}
-		dump()
-		x.Failf(c15FpClosedEarly, "the reply path of a generous Ask was closed before its first Response although no earlier caller could still reference its context: %s", describe(o.rec))
-	}
-	_ = quiet
 }
 
 func c15Gosched() { runtime.Gosched() }
+
+// c15GotForeign: the call returned, without an error, a reply to another request.
+func c15GotForeign(r *c15AskRec) bool {
+	if r.err != nil {
+		return false
+	}
+	for i, tok := range r.tokens {
+		if rep, ok := r.replies[i].(*c15Rep); ok && rep.Token != tok {
+			return true
+		}
+	}
+	return false
+}
 
 func TestVF_C15_system(t *testing.T) {
 	c15Start(t)
@@ -875,6 +897,45 @@ func TestVF_C15_system(t *testing.T) {
 // mailbox's side (the consumed context is recycled) written out as logical
 // threads. Every atomic operation is a scheduling point; when the timer of a
 // short ask fires is a scheduling decision.
+
+// The caller's side of Ask cannot run under the cooperative scheduler (it blocks in
+// a select on a real timer), so it is written out below. To stay a faithful copy it
+// follows the source it was copied from: pid.go is embedded and the shape of
+// PID.Ask's three select branches is read from it.
+//
+//	c15wCallerCurrent : every branch ends with responseClosed.Store(true); putResponseChannel(ch)
+//	c15wCallerFixed   : (proposed_fix.diff) reply branch: putResponseChannel(ch); other branches: nothing
+//	c15wCallerUnknown : anything else -> the unit judges nothing (class inconclusive_caller_side_changed)
+//
+//go:embed pid.go
+var c15PidSrc string
+
+const (
+	c15wCallerUnknown = iota
+	c15wCallerCurrent
+	c15wCallerFixed
+)
+
+func c15wCallerShape() int {
+	i := strings.Index(c15PidSrc, "func (pid *PID) Ask(")
+	if i < 0 {
+		return c15wCallerUnknown
+	}
+	body := c15PidSrc[i:]
+	if j := strings.Index(body, "\n}\n"); j > 0 {
+		body = body[:j]
+	}
+	stores := strings.Count(body, "receiveContext.responseClosed.Store(true)")
+	puts := strings.Count(body, "putResponseChannel(responseCh)")
+	sel := strings.Count(body, "case ")
+	switch {
+	case sel == 3 && stores == 3 && puts == 3:
+		return c15wCallerCurrent
+	case sel == 3 && stores == 0 && puts == 1 && strings.Contains(body, "case result := <-responseCh:\n\t\ttimers.Put(timer)\n\t\tputResponseChannel(responseCh)"):
+		return c15wCallerFixed
+	}
+	return c15wCallerUnknown
+}
 
 type c15wAsk struct {
 	Short     bool `json:"short"`      // a timer thread may fire at any time after the enqueue
@@ -934,6 +995,11 @@ type c15wAskState struct {
 }
 
 func c15wExec(x *vfkit.X, c c15wCase) {
+	shape := c15wCallerShape()
+	if shape == c15wCallerUnknown {
+		x.Class("inconclusive_caller_side_changed")
+		return
+	}
 	c15Drain(c.CtxDepth, c.ChDepth)
 	n := len(c.Asks)
 	st := make([]*c15wAskState, n)
@@ -971,8 +1037,15 @@ func c15wExec(x *vfkit.X, c c15wCase) {
 				q.timedOut = true
 			}
 			q.closeTs = clock.Tick()
-			rc.responseClosed.Store(true)
-			putResponseChannel(ch)
+			switch shape {
+			case c15wCallerCurrent:
+				rc.responseClosed.Store(true)
+				putResponseChannel(ch)
+			case c15wCallerFixed:
+				if take {
+					putResponseChannel(ch)
+				}
+			}
 			q.retTs = clock.Tick()
 			q.done = true
 			vfsched.OpEnd()
